@@ -11,7 +11,7 @@
  *
  * modelled ops (same line printed by ocaml/drv_c09.ml):
  *   len32 <indef> <hex> | len16 <hex> | seq32 <indef> <hex> | seq16 <hex> | set32 <indef> <hex> | set16 <hex>
- *   int <hex> | enum <hex> | oid <checkParams> <hex> | algid <hex> | taglen <hex>
+ *   int <hex> | enum <hex> | oid <checkParams> <hex> | algid <hex> | taglen <hex> | oidcopy <derlen> <hex>
  *   gn <len> <hex: GeneralNames bytes .. extEnd> <hex: DER certificate containing them as SAN>
  *   dn <hex>            psX509GetDNAttributes on a buffer cut at the end of the Name SEQUENCE
  *   b64 <outcap> <hex of the text>
@@ -234,6 +234,15 @@ static void op_prim(void)
         b = exact(g_tok[2], &n); p = b;
         rc = getAsnOID(&p, n, &oi, (uint8_t) atoi(g_tok[1]), &plen);
         if (rc < 0) printf("rc=%d\n", rc); else printf("rc=%d plen=%u adv=%ld\n", rc, plen, (long) (p - b));
+    } else if (!strcmp(op, "oidcopy")) {
+        /* asnCopyOid into an exact MAX_OID_BYTES heap block (what callers keep on their stack) */
+        unsigned char *oid = malloc(MAX_OID_BYTES);
+        uint8_t ret;
+        memset(oid, 0xAA, MAX_OID_BYTES);
+        b = exact(g_tok[2], &n);
+        ret = asnCopyOid(b, (psSizeL_t) strtoul(g_tok[1], NULL, 10), oid);
+        printf("ret=%u oid=", (unsigned) ret); puthex(oid, MAX_OID_BYTES); printf("\n");
+        free(oid);
     } else if (!strcmp(op, "algid")) {
         int32_t oi = 0; psSize_t plen = 0;
         b = exact(g_tok[1], &n); p = b;
@@ -483,7 +492,7 @@ int main(void)
         else if (!strcmp(op, "dn")) op_dn();
         else if (!strcmp(op, "b64") && g_ntok >= 3) op_b64();
         else if (!strncmp(op, "pem", 3)) op_pem();
-        else if (!strcmp(op, "len32") || !strcmp(op, "seq32") || !strcmp(op, "set32") || !strcmp(op, "oid")) { if (g_ntok >= 3) op_prim(); else printf("BADCASE\n"); }
+        else if (!strcmp(op, "len32") || !strcmp(op, "seq32") || !strcmp(op, "set32") || !strcmp(op, "oid") || !strcmp(op, "oidcopy")) { if (g_ntok >= 3) op_prim(); else printf("BADCASE\n"); }
         else if (!strcmp(op, "len16") || !strcmp(op, "seq16") || !strcmp(op, "set16") || !strcmp(op, "int") || !strcmp(op, "enum") ||
                  !strcmp(op, "algid") || !strcmp(op, "taglen")) op_prim();
         else op_whole();
